@@ -33,6 +33,9 @@ type cEvent struct {
 	t    int64
 	kind string
 	sync bool
+	// hook: flag `w` - the datagram is handed to the receive loop from inside the WriteTo the
+	// client makes at instant t (t is a transmission instant; nothing else happens at t)
+	hook bool
 }
 
 type cScenario struct {
@@ -42,6 +45,7 @@ type cScenario struct {
 	cap      int
 	matchNil bool
 	H        int64
+	cerr     int // how the scripted conn's Close behaves (cliScriptConn.closeMode)
 	evs      []cEvent
 	probe    bool // oracle only: try to reuse the xid right after the return
 }
@@ -81,6 +85,11 @@ func cli_parseScenario(op string, args []string) cScenario {
 	sc.cap = int(parseInt64(fieldOf(args, "cap")))
 	sc.matchNil = fieldOf(args, "m") == "nil"
 	sc.H = parseInt64(fieldOf(args, "H"))
+	for _, a := range args {
+		if strings.HasPrefix(a, "cerr=") {
+			sc.cerr = int(parseInt64(a[5:]))
+		}
+	}
 	ev := fieldOf(args, "ev")
 	if ev != "-" {
 		for _, e := range strings.Split(ev, ",") {
@@ -88,7 +97,7 @@ func cli_parseScenario(op string, args []string) cScenario {
 			if len(p) != 3 {
 				panic("harness: bad event " + e)
 			}
-			sc.evs = append(sc.evs, cEvent{t: parseInt64(p[0]), kind: p[1], sync: p[2] == "s"})
+			sc.evs = append(sc.evs, cEvent{t: parseInt64(p[0]), kind: p[1], sync: p[2] == "s" || p[2] == "w", hook: p[2] == "w"})
 		}
 	}
 	return sc
@@ -109,13 +118,20 @@ func (sc cScenario) line() string {
 		if e.sync {
 			f = "s"
 		}
+		if e.hook {
+			f = "w"
+		}
 		evs = append(evs, fmt.Sprintf("%d:%s:%s", e.t, e.kind, f))
 	}
 	ev := "-"
 	if len(evs) > 0 {
 		ev = strings.Join(evs, ",")
 	}
-	return fmt.Sprintf("%s T=%d n=%d cap=%d m=%s H=%d ev=%s", op, sc.T, sc.n, sc.cap, m, sc.H, ev)
+	ce := ""
+	if sc.cerr != 0 {
+		ce = fmt.Sprintf(" cerr=%d", sc.cerr)
+	}
+	return fmt.Sprintf("%s T=%d n=%d cap=%d m=%s H=%d%s ev=%s", op, sc.T, sc.n, sc.cap, m, sc.H, ce, ev)
 }
 
 const timedXid = 0x00c0ffee
@@ -224,6 +240,15 @@ func runTimed(sc cScenario) cResult {
 		start := time.Now()
 		now := func() int64 { return int64(time.Since(start)) }
 		conn := cli_newScriptConn(now)
+		conn.closeMode = sc.cerr
+		for i, e := range sc.evs {
+			if e.hook {
+				if conn.hooks == nil {
+					conn.hooks = map[int64][]byte{}
+				}
+				conn.hooks[e.t] = datagramFor(sc.v6, e.kind, timedXid, i)
+			}
+		}
 		cl := newClient(sc.v6, conn, time.Duration(sc.T), sc.n, sc.cap)
 		want := cl.reqBytes(timedXid)
 		ctx, cancel := context.WithCancel(context.Background())
@@ -274,6 +299,9 @@ func runTimed(sc cScenario) cResult {
 			if e.sync {
 				synctest.Wait()
 			}
+			if e.hook {
+				continue // delivered by the conn from inside WriteTo
+			}
 			switch e.kind {
 			case "cdl":
 				// nothing to do: the context's timer fires by itself at this instant
@@ -320,6 +348,8 @@ func runTimed(sc cScenario) cResult {
 			closing.Store(true)
 			go func() { cl.close(); closeRet <- now() }()
 		}
+		synctest.Wait()
+		conn.forceClose() // closeMode 2: the conn survived Close; end the receive loop now
 		synctest.Wait()
 		if got == nil {
 			select {
